@@ -189,11 +189,20 @@ func (g *gen) iofaults(p *Plan) {
 		if g.r.Chance(1, 4) {
 			st.Prefix = []SkipPlan{{Nibble: g.r.Intn(16), Len: g.r.PickInt(1, 50, 300, 5000)}}
 		}
-		switch g.r.Pick(50, 25, 25) {
+		if g.r.Chance(1, 6) {
+			if st.Base == "lz4w" {
+				st.Opts.Legacy = true
+			} else {
+				st.Enc.Legacy = true
+			}
+		}
+		switch g.r.Pick(40, 20, 15, 25) {
 		case 1:
 			st.Mut = []Mutation{g.mutation(nb)}
 		case 2:
 			st.Mut = []Mutation{{Kind: "cutrand", Byte: g.r.Intn(1 << 30)}}
+		case 3:
+			st.Mut = []Mutation{{Kind: "cutfield", Field: g.r.PickStr("magic", "lmagic", "bsize", "lbsize", "lbsize", "bsum", "endmark", "csum", "flg", "skmagic", "sklen"), Block: g.r.Intn(nb + 1), Byte: g.r.Intn(4)}}
 		}
 		conc := g.r.PickInt(1, 1, 2, 4)
 		ops := g.readOps(bs, n)
